@@ -113,7 +113,7 @@ func TestC04Rounding(t *testing.T) {
 	// r = w - cs2 = r1*alpha + r0 and z0 = r0 + ct0)
 	stride := uint32(1)
 	if !vlib.Thorough() {
-		stride = 11
+		stride = 23
 	}
 	n = 0
 	mh := func(z0, r1 uint32) bool {
@@ -420,7 +420,7 @@ func TestC04Sampling(t *testing.T) {
 			}
 		}
 	}
-	vlib.Check(t, vlib.N(150, 3000), func(t *rapid.T) {
+	vlib.Check(t, vlib.N(150, 2000), func(t *rapid.T) {
 		vlib.Eval(sub)
 		var seed32 [32]byte
 		var seed64 [64]byte
@@ -548,7 +548,7 @@ func TestC04Hedged(t *testing.T) {
 	name := Name
 	p := c04P
 	sub := "hedged/" + name
-	vlib.Check(t, vlib.N(40, 700), func(t *rapid.T) {
+	vlib.Check(t, vlib.N(40, 400), func(t *rapid.T) {
 		vlib.Eval(sub)
 		var seed [32]byte
 		copy(seed[:], vlib.EdgeBytes(t, 32, "seed"))
